@@ -1,7 +1,26 @@
 #!/usr/bin/env python3
 """Regenerates MANIFEST.json from obligations/*.json + manifest_meta.json (claims, texts)."""
-import json, os, glob
+import json, os, glob, sys
 V = os.path.dirname(os.path.dirname(os.path.abspath(__file__)))
+sys.path.insert(0, os.path.join(V, "vf"))
+import driver
+
+
+def measured(pid):
+    """job counts per mode and route, measured from the registry (so the technique text cannot drift)"""
+    reg, jobs = driver.load_jobs(pid)
+    modes, routes = {}, {}
+    for j in jobs:
+        mo = j.get("mode", "dfcc")
+        modes[mo] = modes.get(mo, 0) + 1
+        ro = "native" if mo == "native" else j.get("route", "finite")
+        routes[ro] = routes.get(ro, 0) + 1
+    names = {"dfcc": "contract enforcement with goto-instrument --dfcc", "plain": "harness-level postconditions on the real function (no contract instrumentation)",
+             "native": "exhaustive native enumeration (not a deductive obligation)"}
+    return (" [registered jobs, all tiers: " + "; ".join("%d x %s" % (n, names.get(k, k)) for k, n in sorted(modes.items())) +
+            " | routes: " + ", ".join("%s %d" % (k, routes[k]) for k in ("unbounded", "finite", "bounded", "native") if routes.get(k)) +
+            " (bounded jobs are labelled stand-ins, never counted as proved)]")
+
 meta = json.load(open(os.path.join(V, "manifest_meta.json")))
 props = [json.loads(l)["id"] for l in open(os.path.join(V, "properties.jsonl"))]
 checks, na = [], []
@@ -18,7 +37,7 @@ for pid in props:
             "engine": "cbmc-dfcc",
             "level_claimed": {"category": m.get("category", "proof"), "text": m["text"], "design_ref": m.get("design_ref", "DESIGN.md section 5")},
             "level_note": m["note"],
-            "technique": m.get("technique", "contract-based deductive verification: CBMC function/loop contracts (goto-instrument --dfcc) on the unmodified source"),
+            "technique": m.get("technique", "contract-based deductive verification: CBMC function/loop contracts (goto-instrument --dfcc) on the unmodified source") + measured(pid),
         })
     else:
         na.append({"property_id": pid, "reason": m.get("na_reason", "not constructed yet: no contract registry for this property has been built and self-tested")})
